@@ -94,6 +94,10 @@ func vhResponse(n int, full bool) *types.Response {
 	for i := 0; i < n; i++ {
 		r.Assertions = append(r.Assertions, vhAssertion("a"+string(rune('0'+i)), full))
 	}
+	if (n == 0 || full) && vFlag("resp.EncryptedAssertions.present") {
+		// undecrypted EncryptedAssertion elements (as on the SkipSignatureValidation path) are not assertions
+		r.EncryptedAssertions = []types.EncryptedAssertion{{CipherValue: vString("resp.enc.cv")}}
+	}
 	return r
 }
 
